@@ -14,6 +14,7 @@ CANCEL_READERS = [r"StunRequestState::poll$"]
 
 
 def run(prog, chk, tier):
+    AE.DEEP[0] = (tier == "thorough")
     chk.explanation = (
         "The per-call transition relation of the transaction map, decided from the abstract interpreter's return states "
         "(one row per return state: the facts the path decided, the net effect on the map as presence/absence of symbolic "
